@@ -428,6 +428,10 @@ class Task:
                     # frame-only contracts: whatever is raised, nothing pre-existing may have been written
                     matched = True
                     self.check_frame(c, SV(c.heap0), self.spec_args, name + f"/raises:{cls.__name__}")
+                    # remembered for the evidence: which exception classes ended paths of a frame-only proof (an exception the real code cannot
+                    # raise there would mean the executor cut the path short)
+                    msg = pr.exc.fields.get("args", ("",))
+                    self.res.assumptions.add(f"frame-only proof of {self.qual}: some paths end in {cls.__name__}" + (f" ({msg[0]})" if msg and isinstance(msg[0], str) and len(msg[0]) < 80 else ""))
                 for (k, cond, post) in con.raises:
                     if cls is k or (getattr(con, "raises_subclasses", False) and issubclass(cls, k)):
                         matched = True
